@@ -3,7 +3,7 @@
 changes of golang/mod that alter behaviour the property does not constrain. The property's own check and
 every check whose code the change touches must stay silent (exit 0).
 
-usage: benignwave.py <root> [ID[/k]]      root/<ID>/<k>/{patch.diff,meta.json}
+usage: [BENIGN_OUT=benign3] benignwave.py <root> [ID[/k]]      root/<ID>/<k>/{patch.diff,meta.json}
 Confirms that each patch applies and builds in a scratch worktree, runs the pinned suite (recorded only),
 runs the checks through tools/tryseed.sh and keeps patch, meta and verdicts under /verif/seeded/benign2/.
 """
@@ -29,7 +29,7 @@ def sh(cmd, cwd=None):
 def main():
     root = sys.argv[1]
     sel = sys.argv[2] if len(sys.argv) > 2 else ""
-    outdir = "/verif/seeded/benign2"
+    outdir = "/verif/seeded/" + os.environ.get("BENIGN_OUT", "benign2")
     os.makedirs(outdir, exist_ok=True)
     resfile = outdir + "/RESULTS.json"
     results = json.load(open(resfile)) if os.path.exists(resfile) else {}
@@ -77,7 +77,7 @@ def main():
                 line = [l for l in r.stdout.split("\n") if l.startswith("  C") or l.startswith("VIOLATION") or l.startswith("HARNESS")]
                 res[c] = {"exit": r.returncode, "first": (line[0][:400] if line else "")}
                 if r.returncode != 0:
-                    keep = "/tmp/benign2-alarms/%s-%s" % (name, c)
+                    keep = "/tmp/%s-alarms/%s-%s" % (os.environ.get("BENIGN_OUT", "benign2"), name, c)
                     sh("mkdir -p %s && cp -r %s/replays %s/ 2>/dev/null" % (keep, so, keep))
                     open(keep + "/out.txt", "w").write(r.stdout[-6000:] + r.stderr[-2000:])
                 sh("rm -rf %s" % so)
